@@ -27,8 +27,38 @@ macro_rules! nullable_checked {
     }};
 }
 
+macro_rules! aggregate_case {
+    ($opstruct:ident, $a:ty, $v:ty, $t:expr, $nullable:expr, $inty:ty, $outty:ty) => {{
+        let vals = vec_of::<i64>($t[0]);
+        let keys = vec_of::<u8>($t[1]);
+        let maxg: i64 = num($t[2]);
+        let mut sp = Scratchpad::new(8, HashMap::new());
+        if $nullable { sp.set_nullable(br::<Nullable<i64>>(0), vals, vec_of::<u8>($t[3])); } else { sp.set(br::<i64>(0), vals); }
+        sp.set(br::<u8>(1), keys);
+        sp.set_const(br::<Scalar<i64>>(3), maxg);
+        let mut op = aggregate::$opstruct { input: br::<$inty>(0), grouping: br::<u8>(1), output: br::<$outty>(2), max_index: br(3), a: PhantomData::<$a> };
+        op.init(0, 16, &mut sp);
+        let res = op.execute(false, &mut sp);
+        let acc = sp.get(br::<$v>(2)).to_vec();
+        if $nullable {
+            let pres = sp.get_null_map(br::<Nullable<Any>>(2)).to_vec();
+            let nb = (maxg as usize + 1 + 7) / 8;
+            Some(format!("{} {} {}", if res.is_err() { "err" } else { "ok" }, fmt_vec(&acc), fmt_vec(&pres[..std::cmp::min(pres.len(), nb)])))
+        } else {
+            Some(format!("{} {}", if res.is_err() { "err" } else { "ok" }, fmt_vec(&acc)))
+        }
+    }};
+}
+
 pub fn dispatch(k: &str, t: &[&str]) -> Option<String> {
     match k {
+        "op_aggregate_max" => aggregate_case!(Aggregate, aggregate::MaxI64, i64, t, false, i64, i64),
+        "op_aggregate_min" => aggregate_case!(Aggregate, aggregate::MinI64, i64, t, false, i64, i64),
+        "op_aggregate_count" => aggregate_case!(Aggregate, aggregate::Count, u32, t, false, i64, u32),
+        "op_aggregate_sum" => aggregate_case!(CheckedAggregate, aggregate::SumI64, i64, t, false, i64, i64),
+        "op_aggregate_max_nullable" => aggregate_case!(AggregateNullable, aggregate::MaxI64, i64, t, true, Nullable<i64>, Nullable<i64>),
+        "op_aggregate_min_nullable" => aggregate_case!(AggregateNullable, aggregate::MinI64, i64, t, true, Nullable<i64>, Nullable<i64>),
+        "op_aggregate_sum_nullable" => aggregate_case!(CheckedAggregateNullable, aggregate::SumI64, i64, t, true, Nullable<i64>, Nullable<i64>),
         "op_filter" => {
             let mut sp = Scratchpad::new(4, HashMap::new());
             sp.set(br::<i64>(0), vec_of::<i64>(t[0]));
